@@ -1044,7 +1044,7 @@ def path_from_a_name_rule(ctx, res, rule: str) -> None:
     step stands behind an `isidentifier()` test of the name."""
     from . import common
     idx = ctx.idx
-    f = idx.need_func("rope.refactor.rename.Rename._rename_module")
+    f = common.rename_module_step(idx)
     ps = param_names(f.node)
     cfg = CFG(common.inlined(idx, f))
     n = 0
